@@ -222,6 +222,22 @@ class C14Domain:
             return r
         return None
 
+    def compare(self, op, left, right):
+        """== / != with a symbolic operand: sympy's == is structural; decide from the parameter assumptions or not at all"""
+        import ast as _ast
+        if not isinstance(op, (_ast.Eq, _ast.NotEq)) or not (isinstance(left, sp.Basic) or isinstance(right, sp.Basic)):
+            return None
+        if not all(isinstance(v, (sp.Basic, int, float)) and not isinstance(v, bool) for v in (left, right)):
+            return None
+        d = sp.sympify(left) - sp.sympify(right)
+        z = d.is_zero
+        if z is None:
+            z = True if sp.simplify(d) == 0 else None
+        if z is None:
+            from .interp import UnknownBool
+            return UnknownBool(f'{left} == {right} is not decided by the parameter assumptions')
+        return z if isinstance(op, _ast.Eq) else not z
+
     def isinstance(self, obj, t):
         return False
 
